@@ -181,12 +181,12 @@ int main(int argc, char** argv)
                     if (!any)
                     {
                         std::this_thread::yield();
-                        if (clk::now() - t0 > std::chrono::seconds(12)) break;    // main reports the hang
+                        if (clk::now() - t0 > std::chrono::seconds(30)) break;    // main reports the hang
                     }
                 }
                 ++finished;
                 // keep the operation states alive until everybody is done
-                while (finished.load() < nthr && clk::now() - t0 < std::chrono::seconds(20))
+                while (finished.load() < nthr && clk::now() - t0 < std::chrono::seconds(40))
                     std::this_thread::yield();
             });
         }
@@ -202,7 +202,7 @@ int main(int argc, char** argv)
                 last = p;
                 last_change = clk::now();
             }
-            else if (clk::now() - last_change > std::chrono::seconds(5))
+            else if (clk::now() - last_change > std::chrono::seconds(12))
             {
                 ev("quiescent").done();
                 vlog::flush();
